@@ -15,13 +15,13 @@ func init() {
 		Doc: "the context given to the backend call derives from metadata.NewOutgoingContext(ctx, md) with md = metadata.FromIncomingContext of the inbound context; the method string is the handler's method key",
 		Run: ruleFwdMD})
 	register(&Rule{Name: "FWD-CLOSESEND", Floor: 1,
-		Doc: "in the forwarder of a client-streaming method, every path on which the inbound RecvMsg ended with io.EOF passes clientStream.CloseSend() (the client's half-close is forwarded)",
+		Doc: "in the forwarder of a client-streaming method, every path on which the inbound RecvMsg ended with io.EOF passes clientStream.CloseSend() (the client's half-close is forwarded); and CloseSend runs only where the inbound error is io.EOF (never deferred / after a failed inbound stream)",
 		Run: ruleFwdCloseSend})
 	register(&Rule{Name: "FWD-PAIR", Floor: 3,
 		Doc: "in each forwarding loop the message sent on is the one the preceding receive filled, allocated fresh per iteration",
 		Run: ruleFwdPair})
 	register(&Rule{Name: "FWD-ERR-IDENTITY", Floor: 3,
-		Doc: "every error a forwarder returns is the unmodified result of a stream/connection/interceptor call, never a fresh error (code, message and details survive)",
+		Doc: "every error a forwarder returns is the unmodified result of a stream/connection/interceptor call, never a fresh error (code, message and details survive); the predicate that filters stream errors sets aside only nil, io.EOF and context.Canceled by identity",
 		Run: ruleFwdErrIdentity})
 	register(&Rule{Name: "GO-SHARED", Floor: 3,
 		Doc: "for every goroutine spawned on a request path: what it writes and the spawner reads is read only after the join (under the spawn condition); on the inbound stream it calls only RecvMsg/Context; its Done is reached on every path",
